@@ -128,6 +128,9 @@ class SchedWorld(JobWorld, BuildWorld):
                     exited_unreaped=len([c for c in self.children if c['state'] == 'exited']), my_tokens=mt)
             self.lock_log.append(('wait', fid, tuple(sorted(self.held))))
             if fid in self.other_locks:
+                if self.other_locks[fid]['outcome'] == 'never':
+                    # the holder is an ancestor of this process: it waits for us
+                    raise Hang('F_SETLKW on file id %d, whose lock is held by an ancestor of this process that is waiting for it' % fid)
                 self.other_finishes(eng, fid)
             self.held.add(fid)
             self.lock_log.append(('lock', fid))
@@ -175,7 +178,7 @@ def rp(name):
 
 
 def setup(eng, targets, keep_going=False, top_level=2, pipe0=1, others0=0, runid=10, should_build=None, max_wakeups=10,
-          prior=None, other_locks=None, sub_target=None, shuffle=False, no_do=(), race=(), deps=(), free_at_try=None):
+          prior=None, other_locks=None, sub_target=None, shuffle=False, no_do=(), race=(), deps=(), free_at_try=None, cycles=()):
     """-> (world, server cell, root future = the real builder::run coroutine)"""
     w = SchedWorld(eng, runid, pipe0, others0, adv_budget=(1 if top_level == 0 else 0), allow_steal=(top_level == 0),
                    max_wakeups=max_wakeups)
@@ -212,6 +215,18 @@ def setup(eng, targets, keep_going=False, top_level=2, pipe0=1, others0=0, runid
             w.next_rowid += 1
             w.add_file(fid, name)
         w.other_locks[fid] = {'outcome': outcome, 'name': name, 'race': name in race, 'free_at_try': (free_at_try or {}).get(name)}
+    if cycles:
+        # locks held by the ancestors of this process (REDO_CYCLES): the named targets are being built above us
+        cyc = []
+        for name in cycles:
+            fid = [k for k, r in w.files.items() if tuple(r['name']) == tuple(name)]
+            if not fid:
+                fid = [w.next_rowid]
+                w.next_rowid += 1
+                w.add_file(fid[0], name)
+            cyc.append(fid[0])
+            w.other_locks[fid[0]] = {'outcome': 'never', 'name': name, 'race': False, 'free_at_try': None}
+        w.envmap['REDO_CYCLES'] = [ord(c) for c in ':'.join(str(x) for x in cyc)]
     w.db_committed = w.snap_db()
     envover = dict(keep_going=keep_going, shuffle=shuffle, log=0)
     if sub_target is not None:
